@@ -27,6 +27,8 @@ type gen struct {
 	env *MintEnv
 	r   *Rng
 	ext []*lnInvoice // external invoices created so far
+	// random histories only: now and then request a signature over a secret beyond the 512-byte limit
+	longSecrets bool
 }
 
 var feeChoices = []uint{0, 0, 1, 100, 999, 1000, 2500}
@@ -42,7 +44,7 @@ func (g *gen) unspent() []*HProof {
 }
 
 func (g *gen) genuine(hp *HProof) ReqProof {
-	return ReqProof{P: hp.P, C: CInfo{Kind: "sig", Ks: hp.KsIdx, Amt: hp.Amount, Sec: hp.SecretId}, H: hp}
+	return ReqProof{P: hp.P, C: CInfo{Kind: "sig", Ks: hp.KsIdx, Amt: hp.Amount, Sec: hp.SecretId}, H: hp, Long: hp.Long}
 }
 
 // pick up to n distinct unspent proofs
@@ -57,6 +59,19 @@ func (g *gen) pick(n int) []ReqProof {
 	return out
 }
 
+// witnesses: a proof may carry a witness whatever its secret (the mint ignores it for plain secrets but must store it
+// with the spent / pending row and report it back in state checks, through every settlement path)
+func (g *gen) witnesses(ps []ReqProof) {
+	if !g.r.Chance(35) {
+		return
+	}
+	for i := range ps {
+		if g.r.Bool() {
+			ps[i].P.Witness = fmt.Sprintf(`{"signatures":["%02x"]}`, g.r.Intn(256))
+		}
+	}
+}
+
 func sumReq(ps []ReqProof) uint64 {
 	var s uint64
 	for _, p := range ps {
@@ -69,7 +84,13 @@ func sumReq(ps []ReqProof) uint64 {
 func (g *gen) outputs(total uint64, ksId string) []ReqOut {
 	var outs []ReqOut
 	for _, a := range cashu.AmountSplit(total) {
-		o, err := g.env.MakeOutput(g.env.RandomSecret(), a, ksId)
+		secret := g.env.RandomSecret()
+		if g.longSecrets && g.r.Chance(2) {
+			// the mint signs blind: anybody can obtain a genuine signature over a secret beyond the 512-byte limit
+			// (which must then be refused when presented) — ASCII and multi-byte text
+			secret = []string{strings.Repeat("é", 300), strings.Repeat("世", 200), strings.Repeat("a", 511) + "é", strings.Repeat("a", 520)}[g.r.Intn(4)] + secret
+		}
+		o, err := g.env.MakeOutput(secret, a, ksId)
 		if err != nil {
 			continue
 		}
@@ -176,9 +197,42 @@ func (g *gen) rawOut(amount uint64) ReqOut {
 }
 
 // mutateInputs applies one adversarial variant to genuine unspent inputs
+var hostileSecrets = []string{
+	`["P2PK",{"nonce":"00","data":"02aaaaaaaaaaaaaaaaaaaaaaaaaaaaaaaaaaaaaaaaaaaaaaaaaaaaaaaaaaaaaaaaaa","tags":[["locktime"]]}]`,
+	`["P2PK",{"nonce":"00","data":"02aaaaaaaaaaaaaaaaaaaaaaaaaaaaaaaaaaaaaaaaaaaaaaaaaaaaaaaaaaaaaaaaaa","tags":[["sigflag"]]}]`,
+	`["P2PK",{"nonce":"00","data":"02aaaaaaaaaaaaaaaaaaaaaaaaaaaaaaaaaaaaaaaaaaaaaaaaaaaaaaaaaaaaaaaaaa","tags":[["n_sigs"]]}]`,
+	`["P2PK",{"nonce":"00","data":"02aaaaaaaaaaaaaaaaaaaaaaaaaaaaaaaaaaaaaaaaaaaaaaaaaaaaaaaaaaaaaaaaaa","tags":[["pubkeys"]]}]`,
+	`["P2PK",{"nonce":"00","data":"02aaaaaaaaaaaaaaaaaaaaaaaaaaaaaaaaaaaaaaaaaaaaaaaaaaaaaaaaaaaaaaaaaa","tags":[["refund"]]}]`,
+	`["P2PK",{"nonce":"00","data":"02aaaaaaaaaaaaaaaaaaaaaaaaaaaaaaaaaaaaaaaaaaaaaaaaaaaaaaaaaaaaaaaaaa","tags":[[]]}]`,
+	`["P2PK",{"nonce":"00","data":"02aaaaaaaaaaaaaaaaaaaaaaaaaaaaaaaaaaaaaaaaaaaaaaaaaaaaaaaaaaaaaaaaaa","tags":[["n_sigs","x"]]}]`,
+	`["P2PK",{"nonce":"00","data":"02aaaaaaaaaaaaaaaaaaaaaaaaaaaaaaaaaaaaaaaaaaaaaaaaaaaaaaaaaaaaaaaaaa","tags":[["n_sigs","-1"]]}]`,
+	`["P2PK",{"nonce":"00","data":"02aaaaaaaaaaaaaaaaaaaaaaaaaaaaaaaaaaaaaaaaaaaaaaaaaaaaaaaaaaaaaaaaaa","tags":[["locktime","99999999999999999999999999"]]}]`,
+	`["P2PK",{"nonce":"00","data":"02aaaaaaaaaaaaaaaaaaaaaaaaaaaaaaaaaaaaaaaaaaaaaaaaaaaaaaaaaaaaaaaaaa","tags":[["pubkeys","zz"],["n_sigs","2"]]}]`,
+	`["P2PK",{"nonce":"00","data":"","tags":[]}]`,
+	`["P2PK",{"nonce":"00","data":"02","tags":null}]`,
+	`["P2PK",{}]`,
+	`["P2PK"]`,
+	`["HTLC",{"nonce":"00","data":"00","tags":[["locktime"]]}]`,
+	`["HTLC",{"nonce":"00","data":"zz","tags":[["pubkeys"]]}]`,
+	`["HTLC",{"nonce":"00","data":"0000000000000000000000000000000000000000000000000000000000000000","tags":[["refund"],["locktime","1"]]}]`,
+	`["XXXX",{"nonce":"00","data":"00","tags":[["a"]]}]`,
+	`[1,{"nonce":"00","data":"00"}]`,
+	`["P2PK",{"nonce":"00","data":"02aaaaaaaaaaaaaaaaaaaaaaaaaaaaaaaaaaaaaaaaaaaaaaaaaaaaaaaaaaaaaaaaaa","tags":[["sigflag","SIG_ALL"],["locktime"]]}]`,
+}
+
 func (g *gen) mutateInputs(ps []ReqProof) ([]ReqProof, string) {
 	r := g.r
 	all := g.s.proofs
+	if !g.s.model && len(ps) > 0 && r.Chance(12) {
+		// monitor-only streams: a well-formed NUT-10 envelope with hostile content (the spending condition is parsed
+		// before the signature is checked, so the proof need not be genuine): short / empty / odd tags, wrong kinds,
+		// non-numeric numbers.  Must be refused without a panic and without any change.
+		i := r.Intn(len(ps))
+		ps[i].P.Secret = hostileSecrets[r.Intn(len(hostileSecrets))]
+		ps[i].H = nil
+		ps[i].C = CInfo{Kind: "other", Enc: 0}
+		return ps, "nut10-hostile"
+	}
 	switch r.Intn(16) {
 	case 0: // re-present an already consumed or locked secret
 		var used []*HProof
@@ -278,8 +332,18 @@ func (g *gen) mutateInputs(ps []ReqProof) ([]ReqProof, string) {
 	case 11: // oversized secret
 		if len(ps) > 0 {
 			i := r.Intn(len(ps))
-			ps[i].P.Secret = strings.Repeat("a", 513+r.Intn(3))
-			ps[i].Long = true
+			// the limit is in BYTES: ASCII just over it, and multi-byte text that is short in characters
+			switch r.Intn(4) {
+			case 0:
+				ps[i].P.Secret = strings.Repeat("é", 257+r.Intn(100)) // 514.. bytes, <= 356 characters
+			case 1:
+				ps[i].P.Secret = strings.Repeat("世", 171+r.Intn(300)) // 513.. bytes, <= 470 characters
+			case 2:
+				ps[i].P.Secret = strings.Repeat("a", 511) + "é" // 513 bytes, 512 characters
+			default:
+				ps[i].P.Secret = strings.Repeat("a", 513+r.Intn(3))
+			}
+			ps[i].Long = len(ps[i].P.Secret) > 512
 			ps[i].H = nil
 			return ps, "secret-too-long"
 		}
@@ -287,6 +351,9 @@ func (g *gen) mutateInputs(ps []ReqProof) ([]ReqProof, string) {
 		if len(ps) > 0 {
 			i := r.Intn(len(ps))
 			ps[i].P.Secret = strings.Repeat("b", 512)
+			if r.Bool() {
+				ps[i].P.Secret = strings.Repeat("é", 256) // 512 bytes in 256 characters
+			}
 			ps[i].H = nil
 			return ps, "secret-512"
 		}
@@ -350,7 +417,7 @@ func runOneHistory(c *Ctx, h int, nOps int, model bool) {
 	}
 	defer env.Close()
 	s := NewSeq(c, env, model, mintSeqProps)
-	g := &gen{c: c, s: s, env: env, r: r}
+	g := &gen{c: c, s: s, env: env, r: r, longSecrets: true}
 	if model {
 		init := L(A("mint.init"), N(uint64(opts.FeePpk)), B(opts.FeePct), B(opts.MPP), N(opts.Limits.MintingSettings.MaxAmount),
 			N(opts.Limits.MaxBalance), N(opts.Limits.MeltingSettings.MaxAmount))
@@ -465,6 +532,7 @@ func (g *gen) step() {
 			return
 		}
 		variant := "honest"
+		g.witnesses(ps)
 		if r.Chance(40) {
 			ps, variant = g.mutateInputs(ps)
 		}
@@ -571,6 +639,7 @@ func (g *gen) step() {
 		if r.Chance(15) && len(ps) > 1 {
 			ps = ps[:len(ps)-1] // probably insufficient
 		}
+		g.witnesses(ps)
 		if r.Chance(25) {
 			ps, _ = g.mutateInputs(ps)
 		}
